@@ -131,8 +131,10 @@ def main():
     # other generators register themselves from sibling modules
     import extract_layouts
     import extract_ws
+    import extract_http
     GENERATORS.update(extract_layouts.GENERATORS)
     GENERATORS.update(extract_ws.GENERATORS)
+    GENERATORS.update(extract_http.GENERATORS)
     failed = []
     for name, fn in GENERATORS.items():
         try:
